@@ -55,4 +55,7 @@ def cycleWitness : Tree :=
   let w := ins w (.negated 3)
   (exchange w 7 (.negated 5)).1
 
+/-- `ex1` plus node 5 = ¬(S0 ∧ S1) as a volume: the smallest tree with a negated join -/
+def ex3 : Tree := (ins ex1 (.negated 4)).insertVolume 5
+
 end CelerVerif.Csg
